@@ -56,8 +56,8 @@ def run(ctx):
         ctx.reject("mc", "FileDeploy model: %s" % r.violated, {"tlc": r.out[-3000:]}, None)
     hw = E.hwview("PC", "")
     recs = []
-    outs = ["x", "y", "x\n", "y\n", "x\ny"]      # (an empty generated file vs an absent one is left out: not fixed by the property)
-    olds = [None, "x", "y", "y\n", "x\n"]
+    outs = ["x", "y", "x\n", "y\n", "x\ny", "y\nx", "a\nb\na\n", "a\na\nb\n"]      # incl. the same lines in another order      # (an empty generated file vs an absent one is left out: not fixed by the property)
+    olds = [None, "x", "y", "y\n", "x\n", "x\ny", "y\nx", "a\na\nb\n"]
     paths = ["/etc/a", "/etc/b"]
     flags = {"yes": cli_args.EntireReloadFlag.yes, "no": cli_args.EntireReloadFlag.no, "force": cli_args.EntireReloadFlag.force}
     n_sets = 450 if quick else 12000
